@@ -27,7 +27,7 @@ var c07Tris = []string{"timestampsFullPrecision", "pageArith", "limitZeroAll", "
 	"coldFilterCreated", "coldFilterUpdated", "coldFilterExpire", "coldFilterValueType",
 	"addGuardCreated", "addGuardUpdated", "addGuardExpire", "addGuardValueType",
 	"updRefreshCreated", "updRefreshUpdated", "updRefreshValue", "updRefreshExpireOnFlag",
-	"typeChangeDetected", "valueShared", "flagsSticky", "setVoidClearsTyped",
+	"typeChangeDetected", "valueShared", "flagsSticky", "setVoidClearsTyped", "initialisedAfterFill",
 	"getBeaconServesAllValueTypes", "getBeaconBuildsRequestedType"}
 
 func c07Run(fs *Facts) {
@@ -56,6 +56,7 @@ func c07Run(fs *Facts) {
 		c07LimitZero(fs, f)
 		c07Window(fs, f)
 		c07GetBeacon(fs, f)
+		c07BuildOrder(fs, f)
 	}
 	if f, err := Load("app/server/gateway/gateway.go"); err != nil {
 		fs.Err("%v", err)
@@ -672,5 +673,33 @@ func c07Timestamps(fs *Facts, f *File) {
 	where := "app/server/gateway/gateway.go:" + itoa(f.Line(po))
 	if ok {
 		fs.Tri("timestampsFullPrecision", Yes, where)
+	}
+}
+
+// buildBeacon: is `initialized` raised before the slice is filled (old), or published after the
+// sort under the build lock (new)?
+func c07BuildOrder(fs *Facts, f *File) {
+	fd := f.Func("swamp", "buildBeacon")
+	if fd == nil {
+		return
+	}
+	c07Canon(fd, []string{"s", "beaconASC", "beaconDESC", "bc", "err", "err"})
+	src := f.Str(fd.Body)
+	where := c07At(c07Swamp, f, fd)
+	fill := func(b string) int { return strings.Index(src, b+".PushManyFromMap(s.treasuresForBeacon(bc))") }
+	flagFirst := func(b string) bool {
+		i := strings.Index(src, "if !"+b+".IsInitialized() { "+b+".SetInitialized(true)")
+		return i >= 0 && i < fill(b)
+	}
+	flagLast := func(b string) bool {
+		return !strings.Contains(src, "if !"+b+".IsInitialized() { "+b+".SetInitialized(true)") &&
+			strings.Contains(src, "} else { "+b+".SetInitialized(true) }") && fill(b) >= 0
+	}
+	locked := strings.Contains(src, "s.beaconBuildMu.Lock() defer s.beaconBuildMu.Unlock() if !beaconASC.IsInitialized() {")
+	switch {
+	case flagFirst("beaconASC") && flagFirst("beaconDESC") && !locked:
+		fs.Tri("initialisedAfterFill", No, where)
+	case flagLast("beaconASC") && flagLast("beaconDESC") && locked:
+		fs.Tri("initialisedAfterFill", Yes, where)
 	}
 }
